@@ -196,7 +196,7 @@ def monitor_case(ctx, case, labels, cost, do_brute):
     got = exact_cost(rows, betas, labels)
     M = float(np.sum(np.abs(tab)) + sum(betas))
     slack = Fraction(16 * T * M * 2.0 ** -52)
-    exact_regime = case["stream"] in ("ints", "dtype", "manyK")
+    exact_regime = case["stream"].split("@")[0] in ("ints", "dtype", "manyK")
     if exact_regime:
         slack = Fraction(0)
     ok = True
@@ -280,6 +280,39 @@ def run(ctx):
         coq_index.append(i)
         if i < 3:
             ctx.sample({"stream": case["stream"], "table": case["table"].tolist(), "beta": beta_vector(case), "labels": labels, "cost": cost})
+    # ---- the labelling STEP (predict_cluster_labels: scoring table -> kernel -> new state), with the scoring table dictated:
+    # whatever the step does around the kernel, the labels and cost it stores must be a minimum-cost labelling of the table
+    from fast_ticc import cluster_label_assignment as cla
+    from fast_ticc.containers import arguments as _arg, model_state as _ms
+    step_cases = [c for c in cases if c["layout"] == "C" and c.get("dtype", "float64") == "float64" and c["stream"] in ("ints", "real", "edge")][:ctx.budget(250, 1200)]
+    # tables whose optimum stays in a cluster that is never the cheapest one of any single point ("compromise" cluster)
+    for j in range(ctx.budget(40, 200)):
+        T = int(rng.integers(3, 10)); K = int(rng.integers(3, 6))
+        tab = np.full((T, K), 9.0)
+        comp = int(rng.integers(0, K))
+        others = [k for k in range(K) if k != comp]
+        for i in range(T):
+            tab[i, others[int(rng.integers(0, len(others)))]] = float(rng.integers(0, 3))
+        tab[:, comp] = 3.0
+        beta = float(rng.integers(2, 9)) if j % 2 else rng.integers(2, 9, size=T).astype(np.float64)
+        step_cases.append({"stream": "ints", "table": tab, "beta": beta, "btype": "float", "layout": "C", "dtype": "float64"})
+    orig_table_fn = cla.likelihood.all_points_all_clusters_log_likelihood
+    try:
+        for c in step_cases:
+            tab = c["table"]
+            T, K = tab.shape
+            ua = _arg.UserArguments(sparsity_weight=0.1, iteration_limit=1, label_switching_cost=c["beta"], min_cluster_size=1,
+                                    min_meaningful_covariance=0, num_clusters=K, num_processors=1, biased_covariance=False, window_size=1)
+            data = np.zeros((T, 1))
+            st = _ms.ModelState.empty_model(ua, data)
+            cla.likelihood.all_points_all_clusters_log_likelihood = lambda model, test_data, _t=tab: -_t
+            ctx.count("labelling-step")
+            with ctx.guard("predict_cluster_labels", {"case": describe(c)}):
+                out = cla.predict_cluster_labels(st, data)
+                labels = [int(x) for x in out.point_labels]
+                monitor_case(ctx, dict(c, stream=c["stream"] + "@step"), labels, float(out.label_assignment_cost), do_brute=False)
+    finally:
+        cla.likelihood.all_points_all_clusters_log_likelihood = orig_table_fn
     ctx.coverage["distribution"] = hist
     # ---- model side: binary64 instance evaluated inside Coq
     CH = 400
